@@ -2,10 +2,11 @@
 Helper lemmas for C10 on the extension model, part 1: `InlineX.handleInlineX` / `applyPatternX` (the inline engine over
 a pattern TABLE, `Model/InlineX.lean`) keep the invariants of the B chain (`Lemmas/PlaceholdersBHI.lean`): the data is
 `DataB` (tokens in range, in the domain, none of the three adjacencies, `BtSafe` while the backtick pattern — table
-index 0 — is at work and `BtDone` afterwards), the stash is closed (`StOKB`).  Parametric in the contract `FMSpecXB` of
-the table entries.  Core Lean only.
+index 0 — is at work and `BtDone` afterwards), the stash is closed (`StOKB`); and, for the wikilink pattern, the
+exclusion of blank labels `Qw wl` (`Lemmas/PlaceholdersXQ.lean`; `Qw false` is trivially true) on the data and on every
+string of the stash.  Parametric in the contract `FMSpecXB` of the table entries.  Core Lean only.
 -/
-import MdVerif.Lemmas.PlaceholdersBHI
+import MdVerif.Lemmas.PlaceholdersXQ
 import MdVerif.Model.InlineX
 
 namespace MdVerif.NoCtlX
@@ -14,34 +15,37 @@ open MdVerif.NoCtl Py Inline InlineX
 /-! ### contracts -/
 
 /-- the contract of the table entries: the entry at table index `pi` (index 0 = the backtick pattern) neither stashes
-    nor touches the HTML stash (the footnote bookkeeping `x.fn` may change), its match satisfies `FoundOKB`, and
-    without a match the backtick pattern is through with the data -/
-def FMSpecXB (xc : XCfg) : Prop :=
+    nor touches the HTML stash (the footnote bookkeeping `x.fn` may change), its match satisfies `FoundOKB` and
+    `FoundQ`, and without a match the backtick pattern is through with the data -/
+def FMSpecXB (wl : Bool) (xc : XCfg) : Prop :=
   ∀ (pi : Nat) (k : PatK) (data : Str) (si : Nat) (x : XSt) (fo : Option Found) (x' : XSt),
-    xc.table[pi]? = some k → (pi = 0 → si = 0) → DataB pi x.st.stash.length data →
+    xc.table[pi]? = some k → (pi = 0 → si = 0) → DataB pi x.st.stash.length data → Qw wl data →
     findX xc k data si x = some (fo, x') →
     x'.st.html = x.st.html ∧ x'.st.stash = x.st.stash ∧
-      (∀ f, fo = some f → FoundOKB x.st.stash.length pi data f) ∧ (fo = none → BtDone data)
+      (∀ f, fo = some f → FoundOKB x.st.stash.length pi data f ∧ FoundQ wl f) ∧ (fo = none → BtDone data)
 
 /-- the contract of the nested `handleInlineX` -/
-def HIokXB (hi : HIX) : Prop :=
+def HIokXB (wl : Bool) (hi : HIX) : Prop :=
   ∀ (data : Str) (pi : Nat) (x : XSt) (d : Str) (x' : XSt), DataB pi x.st.stash.length data → StOKB x.st.stash →
-    hi data pi x = some (d, x') → HIOutB x.st d x'.st
+    Qw wl data → QSt wl x.st.stash → hi data pi x = some (d, x') →
+    HIOutB x.st d x'.st ∧ Qw wl d ∧ QSt wl x'.st.stash
 
 /-- the contract of `handleInlineTopX` on a whole text (as `HISpecB`) -/
-def HISpecXB (xc : XCfg) : Prop :=
+def HISpecXB (wl : Bool) (xc : XCfg) : Prop :=
   ∀ (data : Str) (x : XSt) (d : Str) (x' : XSt), StrT x.st.stash.length (some data) → StOKB x.st.stash →
-    handleInlineTopX xc data x = some (d, x') →
+    Qw wl data → QSt wl x.st.stash → handleInlineTopX xc data x = some (d, x') →
     StrB x'.st.stash.length (some d) ∧ StOKB x'.st.stash ∧ x.st.stash.length ≤ x'.st.stash.length ∧
-      x'.st.html = x.st.html
+      x'.st.html = x.st.html ∧ Qw wl d ∧ QSt wl x'.st.stash
 
 /-! ### `hiOptX`, `hiNodeX`, `hiNodesX` -/
 
-theorem hiOptXB_spec {hi : HIX} (hhi : HIokXB hi) {t t' : Option Str} {atomic : Bool} {pi : Nat} {x x' : XSt}
-    (ht : atomic = false → StrB x.st.stash.length t) (hst : StOKB x.st.stash)
+theorem hiOptXB_spec {wl : Bool} {hi : HIX} (hhi : HIokXB wl hi) {t t' : Option Str} {atomic : Bool} {pi : Nat}
+    {x x' : XSt} (ht : atomic = false → StrB x.st.stash.length t) (hst : StOKB x.st.stash)
+    (htq : atomic = false → Qw wl (t.getD [])) (hqs : QSt wl x.st.stash)
     (h : hiOptX hi t atomic pi x = some (t', x')) :
     (atomic = false → StrB x'.st.stash.length t') ∧ (atomic = true → t' = t) ∧ StOKB x'.st.stash ∧
-      x.st.stash.length ≤ x'.st.stash.length ∧ x'.st.html = x.st.html := by
+      x.st.stash.length ≤ x'.st.stash.length ∧ x'.st.html = x.st.html ∧
+      (atomic = false → Qw wl (t'.getD [])) ∧ QSt wl x'.st.stash := by
   unfold hiOptX at h
   split at h
   · rename_i hc
@@ -52,16 +56,19 @@ theorem hiOptXB_spec {hi : HIX} (hhi : HIokXB hi) {t t' : Option Str} {atomic : 
       obtain ⟨d, s'⟩ := r
       simp only [hh, Option.some.injEq, Prod.mk.injEq] at h
       obtain ⟨rfl, rfl⟩ := h
-      have := hhi _ _ _ _ _ (dataB_of_strB (ht hc.2)) hst hh
-      exact ⟨fun _ => this.str, fun ha => by rw [ha] at hc; exact absurd hc.2 (by decide), this.stOK, this.le, this.html⟩
+      obtain ⟨this, q1, q2⟩ := hhi _ _ _ _ _ (dataB_of_strB (ht hc.2)) hst (htq hc.2) hqs hh
+      exact ⟨fun _ => this.str, fun ha => by rw [ha] at hc; exact absurd hc.2 (by decide), this.stOK, this.le, this.html,
+        fun _ => q1, q2⟩
   · simp only [Option.some.injEq, Prod.mk.injEq] at h
     obtain ⟨rfl, rfl⟩ := h
-    exact ⟨ht, fun _ => rfl, hst, Nat.le_refl _, rfl⟩
+    exact ⟨ht, fun _ => rfl, hst, Nat.le_refl _, rfl, htq, hqs⟩
 
-theorem hiNodeXB_spec {hi : HIX} (hhi : HIokXB hi) {pi : Nat} {n n' : Node} {x x' : XSt}
-    (hn : SNodeB x.st.stash.length n) (hst : StOKB x.st.stash) (h : hiNodeX hi pi n x = some (n', x')) :
+theorem hiNodeXB_spec {wl : Bool} {hi : HIX} (hhi : HIokXB wl hi) {pi : Nat} {n n' : Node} {x x' : XSt}
+    (hn : SNodeB x.st.stash.length n) (hst : StOKB x.st.stash) (hnq : QN wl n) (hqs : QSt wl x.st.stash)
+    (h : hiNodeX hi pi n x = some (n', x')) :
     SNodeB x'.st.stash.length n' ∧ n'.children = n.children ∧ (n.tail = none → n'.tail = none) ∧
-    n'.tag = n.tag ∧ StOKB x'.st.stash ∧ x.st.stash.length ≤ x'.st.stash.length ∧ x'.st.html = x.st.html := by
+    n'.tag = n.tag ∧ StOKB x'.st.stash ∧ x.st.stash.length ≤ x'.st.stash.length ∧ x'.st.html = x.st.html ∧
+    QN wl n' ∧ QSt wl x'.st.stash := by
   unfold hiNodeX at h
   cases h1 : hiOptX hi n.text n.textAtomic (pi + 1) x with
   | none => simp [h1] at h
@@ -80,9 +87,9 @@ theorem hiNodeXB_spec {hi : HIX} (hhi : HIokXB hi) {pi : Nat} {n n' : Node} {x x
         by_cases hc : isCode n = true
         · rw [if_pos hc] at g5; rw [g5.1] at ha; cases ha
         · rw [if_neg hc] at g5; exact g5.2
-      obtain ⟨a1, a1', a2, a3, a4⟩ := hiOptXB_spec hhi htext hst h1
-      obtain ⟨b1, -, b2, b3, b4⟩ := hiOptXB_spec hhi (fun _ => g4.mono a3) a2 h2
-      refine ⟨⟨g1, g2, g3, b1 g3, ?_⟩, rfl, ?_, rfl, b2, Nat.le_trans a3 b3, b4.trans a4⟩
+      obtain ⟨a1, a1', a2, a3, a4, a5, a6⟩ := hiOptXB_spec hhi htext hst hnq.1 hqs h1
+      obtain ⟨b1, -, b2, b3, b4, b5, b6⟩ := hiOptXB_spec hhi (fun _ => g4.mono a3) a2 (fun _ => hnq.2) a6 h2
+      refine ⟨⟨g1, g2, g3, b1 g3, ?_⟩, rfl, ?_, rfl, b2, Nat.le_trans a3 b3, b4.trans a4, ⟨a5, b5 g3⟩, b6⟩
       · by_cases hc : isCode n = true
         · have hc' : isCode ({ n with text := t, tail := tl } : Node) = true := hc
           rw [if_pos hc] at g5; rw [if_pos hc']
@@ -103,20 +110,22 @@ theorem hiNodeXB_spec {hi : HIX} (hhi : HIokXB hi) {pi : Nat} {n n' : Node} {x x
         simp only [Node.truthy, Bool.false_and, Bool.false_eq_true, if_false, Option.some.injEq, Prod.mk.injEq] at h2
         exact h2.1.symm
 
-theorem hiNodesXB_spec {hi : HIX} (hhi : HIokXB hi) {pi : Nat} :
+theorem hiNodesXB_spec {wl : Bool} {hi : HIX} (hhi : HIokXB wl hi) {pi : Nat} :
     ∀ (l l' : List Node) (x x' : XSt), (∀ c ∈ l, c.Forall (SNodeB x.st.stash.length)) → StOKB x.st.stash →
+      (∀ c ∈ l, c.Forall (QN wl)) → QSt wl x.st.stash →
       hiNodesX hi pi l x = some (l', x') →
       (∀ c ∈ l', c.Forall (SNodeB x'.st.stash.length)) ∧ StOKB x'.st.stash ∧
-        x.st.stash.length ≤ x'.st.stash.length ∧ x'.st.html = x.st.html := by
+        x.st.stash.length ≤ x'.st.stash.length ∧ x'.st.html = x.st.html ∧
+        (∀ c ∈ l', c.Forall (QN wl)) ∧ QSt wl x'.st.stash := by
   intro l
   induction l with
   | nil =>
-    intro l' x x' _ hst h
+    intro l' x x' _ hst _ hqs h
     simp only [hiNodesX, Option.some.injEq, Prod.mk.injEq] at h
     obtain ⟨rfl, rfl⟩ := h
-    exact ⟨by simp, hst, Nat.le_refl _, rfl⟩
+    exact ⟨by simp, hst, Nat.le_refl _, rfl, by simp, hqs⟩
   | cons n r ih =>
-    intro l' x x' hl hst h
+    intro l' x x' hl hst hlq hqs h
     simp only [hiNodesX] at h
     cases h1 : hiNodeX hi pi n x with
     | none => simp [h1] at h
@@ -130,19 +139,28 @@ theorem hiNodesXB_spec {hi : HIX} (hhi : HIokXB hi) {pi : Nat} :
         simp only [h2, Option.some.injEq, Prod.mk.injEq] at h
         obtain ⟨rfl, rfl⟩ := h
         have hn := hl n (by simp)
-        rw [Node.forall_iff] at hn
-        obtain ⟨a1, a2, -, -, a4, a5, a6⟩ := hiNodeXB_spec hhi hn.1 hst h1
-        obtain ⟨b1, b2, b3, b4⟩ := ih r' x1 x2
-          (fun c hc => forall_SNodeB_mono a5 (hl c (by simp [hc]))) a4 h2
-        refine ⟨?_, b2, Nat.le_trans a5 b3, b4.trans a6⟩
-        intro c hc
-        rcases List.mem_cons.1 hc with rfl | hc
-        · rw [Node.forall_iff]
-          refine ⟨a1.mono b3, ?_⟩
-          intro g hg
-          rw [a2] at hg
-          exact forall_SNodeB_mono (Nat.le_trans a5 b3) (hn.2 g hg)
-        · exact b1 c hc
+        have hnq := hlq n (by simp)
+        rw [Node.forall_iff] at hn hnq
+        obtain ⟨a1, a2, -, -, a4, a5, a6, a7, a8⟩ := hiNodeXB_spec hhi hn.1 hst hnq.1 hqs h1
+        obtain ⟨b1, b2, b3, b4, b5, b6⟩ := ih r' x1 x2
+          (fun c hc => forall_SNodeB_mono a5 (hl c (by simp [hc]))) a4 (fun c hc => hlq c (by simp [hc])) a8 h2
+        refine ⟨?_, b2, Nat.le_trans a5 b3, b4.trans a6, ?_, b6⟩
+        · intro c hc
+          rcases List.mem_cons.1 hc with rfl | hc
+          · rw [Node.forall_iff]
+            refine ⟨a1.mono b3, ?_⟩
+            intro g hg
+            rw [a2] at hg
+            exact forall_SNodeB_mono (Nat.le_trans a5 b3) (hn.2 g hg)
+          · exact b1 c hc
+        · intro c hc
+          rcases List.mem_cons.1 hc with rfl | hc
+          · rw [Node.forall_iff]
+            refine ⟨a7, ?_⟩
+            intro g hg
+            rw [a2] at hg
+            exact hnq.2 g hg
+          · exact b5 c hc
 
 /-! ### `applyPatternX`, `hiLoopX`, `handleInlineX` -/
 
@@ -177,16 +195,17 @@ theorem applyPatternX_eq (xc : XCfg) (hi : HIX) (pi : Nat) (data : Str) (si : Na
               some (data.take f.start ++ (stashX x1 (.node n')).1 ++ pyDrop data f.stop, true, 0,
                 (stashX x1 (.node n')).2) := rfl
 
-theorem elStepXB_spec {hi : HIX} (hhi : HIokXB hi) {pi : Nat} {n n' : Node} {x x1 : XSt}
+theorem elStepXB_spec {wl : Bool} {hi : HIX} (hhi : HIokXB wl hi) {pi : Nat} {n n' : Node} {x x1 : XSt}
     (hraw : n.Forall (SNodeB x.st.stash.length)) (htl : n.tail = none) (hst : StOKB x.st.stash)
+    (hnq : n.Forall (QN wl)) (hqs : QSt wl x.st.stash)
     (h : elStepX hi pi n x = some (n', x1)) :
     ItemOKB x1.st.stash.length (.node n') ∧ StOKB x1.st.stash ∧ x.st.stash.length ≤ x1.st.stash.length ∧
-      x1.st.html = x.st.html := by
+      x1.st.html = x.st.html ∧ n'.Forall (QN wl) ∧ QSt wl x1.st.stash := by
   unfold elStepX at h
   split at h
   · simp only [Option.some.injEq, Prod.mk.injEq] at h
     obtain ⟨rfl, rfl⟩ := h
-    exact ⟨⟨hraw, htl⟩, hst, Nat.le_refl _, rfl⟩
+    exact ⟨⟨hraw, htl⟩, hst, Nat.le_refl _, rfl, hnq, hqs⟩
   · cases h1 : hiNodeX hi pi { n with children := [] } x with
     | none => simp [h1] at h
     | some r1 =>
@@ -198,7 +217,7 @@ theorem elStepXB_spec {hi : HIX} (hhi : HIokXB hi) {pi : Nat} {n n' : Node} {x x
         obtain ⟨kids, sb⟩ := r2
         simp only [h2, Option.some.injEq, Prod.mk.injEq] at h
         obtain ⟨rfl, rfl⟩ := h
-        rw [Node.forall_iff] at hraw
+        rw [Node.forall_iff] at hraw hnq
         have hs' : SNodeB x.st.stash.length { n with children := [] } := by
           obtain ⟨a1, a2, a3, a4, a5⟩ := hraw.1
           refine ⟨a1, a2, a3, a4, ?_⟩
@@ -208,49 +227,63 @@ theorem elStepXB_spec {hi : HIX} (hhi : HIokXB hi) {pi : Nat} {n n' : Node} {x x
             exact ⟨a5.1, a5.2.1, rfl, a5.2.2.2⟩
           · have hc' : ¬ isCode ({ n with children := [] } : Node) = true := hc
             rw [if_neg hc] at a5; rw [if_neg hc']; exact a5
-        obtain ⟨a1, a2, a3, atag, a4, a5, a6⟩ := hiNodeXB_spec hhi hs' hst h1
-        obtain ⟨b1, b2, b3, b4⟩ := hiNodesXB_spec hhi n.children kids sa _
-          (fun c hc => forall_SNodeB_mono a5 (hraw.2 c hc)) a4 h2
-        refine ⟨⟨?_, a3 htl⟩, b2, Nat.le_trans a5 b3, b4.trans a6⟩
-        rw [Node.forall_iff]
-        refine ⟨?_, b1⟩
-        -- the element with its new children: a `code` element has none and keeps none
-        obtain ⟨c1, c2, c3, c4, c5⟩ := a1.mono b3
-        refine ⟨c1, c2, c3, c4, ?_⟩
-        by_cases hc : isCode n1 = true
-        · have hc' : isCode ({ n1 with children := kids } : Node) = true := hc
-          rw [if_pos hc] at c5; rw [if_pos hc']
-          refine ⟨c5.1, c5.2.1, ?_, c5.2.2.2⟩
-          have hcn : isCode n = true := by
-            have : n1.tag = n.tag := atag
-            simpa [isCode, this] using hc
-          have := hraw.1.2.2.2.2
-          rw [if_pos hcn] at this
-          have hk : n.children = [] := this.2.2.1
-          rw [hk] at h2
-          simp only [hiNodesX, Option.some.injEq, Prod.mk.injEq] at h2
-          exact h2.1.symm
-        · have hc' : ¬ isCode ({ n1 with children := kids } : Node) = true := hc
-          rw [if_neg hc] at c5; rw [if_neg hc']; exact c5
+        have hq' : QN wl { n with children := [] } := hnq.1
+        obtain ⟨a1, a2, a3, atag, a4, a5, a6, a7, a8⟩ := hiNodeXB_spec hhi hs' hst hq' hqs h1
+        obtain ⟨b1, b2, b3, b4, b5, b6⟩ := hiNodesXB_spec hhi n.children kids sa _
+          (fun c hc => forall_SNodeB_mono a5 (hraw.2 c hc)) a4 hnq.2 a8 h2
+        refine ⟨⟨?_, a3 htl⟩, b2, Nat.le_trans a5 b3, b4.trans a6, ?_, b6⟩
+        · rw [Node.forall_iff]
+          refine ⟨?_, b1⟩
+          -- the element with its new children: a `code` element has none and keeps none
+          obtain ⟨c1, c2, c3, c4, c5⟩ := a1.mono b3
+          refine ⟨c1, c2, c3, c4, ?_⟩
+          by_cases hc : isCode n1 = true
+          · have hc' : isCode ({ n1 with children := kids } : Node) = true := hc
+            rw [if_pos hc] at c5; rw [if_pos hc']
+            refine ⟨c5.1, c5.2.1, ?_, c5.2.2.2⟩
+            have hcn : isCode n = true := by
+              have : n1.tag = n.tag := atag
+              simpa [isCode, this] using hc
+            have := hraw.1.2.2.2.2
+            rw [if_pos hcn] at this
+            have hk : n.children = [] := this.2.2.1
+            rw [hk] at h2
+            simp only [hiNodesX, Option.some.injEq, Prod.mk.injEq] at h2
+            exact h2.1.symm
+          · have hc' : ¬ isCode ({ n1 with children := kids } : Node) = true := hc
+            rw [if_neg hc] at c5; rw [if_neg hc']; exact c5
+        · rw [Node.forall_iff]
+          exact ⟨a7, b5⟩
 
-theorem spliceXB_out {pi : Nat} {data : Str} {start : Nat} {stop : Int} {x x1 : XSt} {it : StashItem}
+theorem spliceXB_out {wl : Bool} {pi : Nat} {data : Str} {start : Nat} {stop : Int} {x x1 : XSt} {it : StashItem}
     (hd : DomB data) (hs : SpliceB x.st.stash.length pi data start stop)
     (hle : x.st.stash.length ≤ x1.st.stash.length)
-    (hst : StOKB x1.st.stash) (hit : ItemOKB x1.st.stash.length it) :
+    (hst : StOKB x1.st.stash) (hit : ItemOKB x1.st.stash.length it)
+    (hq : Qw wl data) (hqs : QSt wl x1.st.stash) (hitq : QItem wl it) :
     DataB pi (stashX x1 it).2.st.stash.length (data.take start ++ (stashX x1 it).1 ++ pyDrop data stop) ∧
       StOKB (stashX x1 it).2.st.stash ∧ x1.st.stash.length ≤ (stashX x1 it).2.st.stash.length ∧
-      (stashX x1 it).2.st.html = x1.st.html := by
+      (stashX x1 it).2.st.html = x1.st.html ∧
+      Qw wl (data.take start ++ (stashX x1 it).1 ++ pyDrop data stop) ∧ QSt wl (stashX x1 it).2.st.stash := by
   obtain ⟨o1, o2⟩ := spliceB_out (st := x.st) (st1 := x1.st) hd hs hle hst hit
-  exact ⟨o1, o2, by simp [stashX, stashNode], rfl⟩
+  exact ⟨o1, o2, by simp [stashX, stashNode], rfl, qw_splice_data hq _ _ _, hqs.push hitq⟩
+
+/-- the result of one step of the pattern loop -/
+structure StepOut (wl : Bool) (pi : Nat) (x : XSt) (d : Str) (m : Bool) (si' : Nat) (x' : XSt) : Prop where
+  dat : DataB (if m then pi else pi + 1) x'.st.stash.length d
+  si : (if m then pi else pi + 1) = 0 → si' = 0
+  stOK : StOKB x'.st.stash
+  le : x.st.stash.length ≤ x'.st.stash.length
+  html : x'.st.html = x.st.html
+  q : Qw wl d
+  qs : QSt wl x'.st.stash
 
 /-- one step of the pattern loop: the new data, with the invariant of the table index that is tried next -/
-theorem applyPatternXB_spec {xc : XCfg} (hfm : FMSpecXB xc) {hi : HIX} (hhi : HIokXB hi) {pi : Nat}
+theorem applyPatternXB_spec {wl : Bool} {xc : XCfg} (hfm : FMSpecXB wl xc) {hi : HIX} (hhi : HIokXB wl hi) {pi : Nat}
     {data : Str} {si : Nat} {x : XSt} {d : Str} {m : Bool} {si' : Nat} {x' : XSt}
     (hpi : pi < xc.table.length)
     (hsi : pi = 0 → si = 0) (hdat : DataB pi x.st.stash.length data) (hst : StOKB x.st.stash)
-    (h : applyPatternX xc hi pi data si x = some (d, m, si', x')) :
-    DataB (if m then pi else pi + 1) x'.st.stash.length d ∧ ((if m then pi else pi + 1) = 0 → si' = 0) ∧
-      StOKB x'.st.stash ∧ x.st.stash.length ≤ x'.st.stash.length ∧ x'.st.html = x.st.html := by
+    (hq : Qw wl data) (hqs : QSt wl x.st.stash)
+    (h : applyPatternX xc hi pi data si x = some (d, m, si', x')) : StepOut wl pi x d m si' x' := by
   rw [applyPatternX_eq] at h
   obtain ⟨k, hk⟩ : ∃ k, xc.table[pi]? = some k := ⟨xc.table[pi], List.getElem?_eq_getElem hpi⟩
   simp only [hk] at h
@@ -258,60 +291,66 @@ theorem applyPatternXB_spec {xc : XCfg} (hfm : FMSpecXB xc) {hi : HIX} (hhi : HI
   | none => simp [hf] at h
   | some r =>
     obtain ⟨fo, x0⟩ := r
-    obtain ⟨ehtml, estash, hfo, hno⟩ := hfm pi k data si x fo x0 hk hsi hdat hf
+    obtain ⟨ehtml, estash, hfo, hno⟩ := hfm pi k data si x fo x0 hk hsi hdat hq hf
     have hst0 : StOKB x0.st.stash := by rw [estash]; exact hst
+    have hqs0 : QSt wl x0.st.stash := by rw [estash]; exact hqs
     cases fo with
     | none =>
       simp only [hf, Option.some.injEq, Prod.mk.injEq] at h
       obtain ⟨rfl, rfl, rfl, rfl⟩ := h
-      simp only [Bool.false_eq_true, if_false]
-      rw [estash]
-      exact ⟨⟨hdat.wf, hdat.dom, hdat.adj, btInv_of_done (hno rfl)⟩, fun h => by omega, hst, Nat.le_refl _, ehtml⟩
+      refine ⟨?_, ?_, hst0, by rw [estash]; exact Nat.le_refl _, ehtml, hq, hqs0⟩
+      · simp only [Bool.false_eq_true, if_false]
+        rw [estash]
+        exact ⟨hdat.wf, hdat.dom, hdat.adj, btInv_of_done (hno rfl)⟩
+      · simp only [Bool.false_eq_true, if_false]
+        intro h; omega
     | some f =>
-      have hfo := hfo f rfl
+      obtain ⟨hfo, hfq⟩ := hfo f rfl
       rw [← estash] at hfo hdat
       simp only [hf] at h
       unfold FoundOKB at hfo
+      unfold FoundQ at hfq
       cases hnode : f.node with
       | none =>
         simp only [hnode, Option.some.injEq, Prod.mk.injEq] at h hfo
         obtain ⟨rfl, rfl, rfl, rfl⟩ := h
+        refine ⟨by simpa using hdat, ?_, hst0, by rw [estash]; exact Nat.le_refl _, ehtml, hq, hqs0⟩
         simp only [if_true]
-        exact ⟨hdat, fun h => by omega, hst0, by rw [estash]; exact Nat.le_refl _, ehtml⟩
+        intro h; omega
       | str s =>
-        simp only [hnode] at h hfo
+        simp only [hnode] at h hfo hfq
         simp only [Option.some.injEq, Prod.mk.injEq] at h
         obtain ⟨rfl, rfl, rfl, rfl⟩ := h
-        simp only [if_true]
-        obtain ⟨o1, o2, o3, o4⟩ := spliceXB_out hdat.dom hfo.1 (Nat.le_refl _) hst0 (it := .str s) hfo.2
-        exact ⟨o1, (by first | trivial | exact fun _ => trivial | exact fun _ => rfl), o2, by rw [← estash]; exact o3, o4.trans ehtml⟩
+        obtain ⟨o1, o2, o3, o4, o5, o6⟩ :=
+          spliceXB_out hdat.dom hfo.1 (Nat.le_refl _) hst0 (it := .str s) hfo.2 hq hqs0 hfq
+        exact ⟨by simpa using o1, fun _ => rfl, o2, by rw [← estash]; exact o3, o4.trans ehtml, o5, o6⟩
       | el n =>
-        simp only [hnode] at h hfo
+        simp only [hnode] at h hfo hfq
         cases hel : elStepX hi pi n x0 with
         | none => simp [hel] at h
         | some r =>
           obtain ⟨n', x1⟩ := r
           simp only [hel, Option.some.injEq, Prod.mk.injEq] at h
           obtain ⟨rfl, rfl, rfl, rfl⟩ := h
-          simp only [if_true]
-          obtain ⟨k1, k2, k3, k4⟩ := elStepXB_spec hhi hfo.2.1 hfo.2.2.1 hst0 hel
-          obtain ⟨o1, o2, o3, o4⟩ := spliceXB_out hdat.dom hfo.1 k3 k2 k1
-          exact ⟨o1, (by first | trivial | exact fun _ => trivial | exact fun _ => rfl), o2, by rw [← estash]; exact Nat.le_trans k3 o3, (o4.trans k4).trans ehtml⟩
+          obtain ⟨k1, k2, k3, k4, k5, k6⟩ := elStepXB_spec hhi hfo.2.1 hfo.2.2.1 hst0 hfq hqs0 hel
+          obtain ⟨o1, o2, o3, o4, o5, o6⟩ := spliceXB_out hdat.dom hfo.1 k3 k2 k1 hq k6 (it := .node n') k5
+          exact ⟨by simpa using o1, fun _ => rfl, o2, by rw [← estash]; exact Nat.le_trans k3 o3,
+            (o4.trans k4).trans ehtml, o5, o6⟩
 
-theorem hiLoopXB_spec {count : Nat} (hcount : 1 ≤ count)
+theorem hiLoopXB_spec {wl : Bool} {count : Nat} (hcount : 1 ≤ count)
     {ap : Nat → Str → Nat → XSt → Option (Str × Bool × Nat × XSt)}
     (hap : ∀ pi data si x d m si' x', pi < count → (pi = 0 → si = 0) → DataB pi x.st.stash.length data →
-      StOKB x.st.stash → ap pi data si x = some (d, m, si', x') →
-      DataB (if m then pi else pi + 1) x'.st.stash.length d ∧ ((if m then pi else pi + 1) = 0 → si' = 0) ∧
-        StOKB x'.st.stash ∧ x.st.stash.length ≤ x'.st.stash.length ∧ x'.st.html = x.st.html) :
+      StOKB x.st.stash → Qw wl data → QSt wl x.st.stash → ap pi data si x = some (d, m, si', x') →
+      StepOut wl pi x d m si' x') :
     ∀ (g : Nat) (data : Str) (pi si : Nat) (x : XSt) (d : Str) (x' : XSt), (pi = 0 → si = 0) →
-      DataB pi x.st.stash.length data → StOKB x.st.stash → hiLoopX count ap g data pi si x = some (d, x') →
-      HIOutB x.st d x'.st := by
+      DataB pi x.st.stash.length data → StOKB x.st.stash → Qw wl data → QSt wl x.st.stash →
+      hiLoopX count ap g data pi si x = some (d, x') →
+      HIOutB x.st d x'.st ∧ Qw wl d ∧ QSt wl x'.st.stash := by
   intro g
   induction g with
-  | zero => intro data pi si x d x' _ _ _ h; simp [hiLoopX] at h
+  | zero => intro data pi si x d x' _ _ _ _ _ h; simp [hiLoopX] at h
   | succ g ih =>
-    intro data pi si x d x' hsi hdat hst h
+    intro data pi si x d x' hsi hdat hst hq hqs h
     simp only [hiLoopX] at h
     split at h
     · rename_i hpi
@@ -320,9 +359,9 @@ theorem hiLoopXB_spec {count : Nat} (hcount : 1 ≤ count)
       | some r =>
         obtain ⟨d1, m, si1, x1⟩ := r
         simp only [ha] at h
-        obtain ⟨o1, o2, o3, o4, o5⟩ := hap pi data si x d1 m si1 x1 hpi hsi hdat hst ha
-        have := ih _ _ _ _ _ _ o2 o1 o3 h
-        exact ⟨this.str, this.stOK, Nat.le_trans o4 this.le, this.html.trans o5⟩
+        have o := hap pi data si x d1 m si1 x1 hpi hsi hdat hst hq hqs ha
+        obtain ⟨this, q1, q2⟩ := ih _ _ _ _ _ _ o.si o.dat o.stOK o.q o.qs h
+        exact ⟨⟨this.str, this.stOK, Nat.le_trans o.le this.le, this.html.trans o.html⟩, q1, q2⟩
     · rename_i hpi
       simp only [Option.some.injEq, Prod.mk.injEq] at h
       obtain ⟨rfl, rfl⟩ := h
@@ -331,23 +370,24 @@ theorem hiLoopXB_spec {count : Nat} (hcount : 1 ≤ count)
         unfold BtInv at this
         rw [if_neg (by omega)] at this
         exact this
-      exact ⟨⟨hdat.wf, hdat.dom, hdat.adj, hbt⟩, hst, Nat.le_refl _, rfl⟩
+      exact ⟨⟨⟨hdat.wf, hdat.dom, hdat.adj, hbt⟩, hst, Nat.le_refl _, rfl⟩, hq, hqs⟩
 
-theorem handleInlineXB_spec {xc : XCfg} (hfm : FMSpecXB xc) (hcount : 1 ≤ xc.table.length) :
-    ∀ f, HIokXB (fun d p s => handleInlineX xc f d p s) := by
+theorem handleInlineXB_spec {wl : Bool} {xc : XCfg} (hfm : FMSpecXB wl xc) (hcount : 1 ≤ xc.table.length) :
+    ∀ f, HIokXB wl (fun d p s => handleInlineX xc f d p s) := by
   intro f
   induction f with
-  | zero => intro data pi x d x' _ _ h; simp [handleInlineX] at h
+  | zero => intro data pi x d x' _ _ _ _ h; simp [handleInlineX] at h
   | succ f ih =>
-    intro data pi x d x' hdat hst h
+    intro data pi x d x' hdat hst hq hqs h
     simp only [handleInlineX] at h
-    exact hiLoopXB_spec hcount (fun pi data si x d m si' x' hpi hsi hdat hst ha =>
-      applyPatternXB_spec hfm ih hpi hsi hdat hst ha) _ _ _ _ _ _ _ (fun _ => rfl) hdat hst h
+    exact hiLoopXB_spec hcount (fun pi data si x d m si' x' hpi hsi hdat hst hq hqs ha =>
+      applyPatternXB_spec hfm ih hpi hsi hdat hst hq hqs ha) _ _ _ _ _ _ _ (fun _ => rfl) hdat hst hq hqs h
 
-theorem hiSpecXB_of_fmSpecXB {xc : XCfg} (hfm : FMSpecXB xc) (hcount : 1 ≤ xc.table.length) : HISpecXB xc := by
-  intro data x d x' hs hst h
+theorem hiSpecXB_of_fmSpecXB {wl : Bool} {xc : XCfg} (hfm : FMSpecXB wl xc) (hcount : 1 ≤ xc.table.length) :
+    HISpecXB wl xc := by
+  intro data x d x' hs hst hq hqs h
   have hdat : DataB 0 x.st.stash.length data := ⟨hs.1, hs.2.1, hs.2.2.1, by unfold BtInv; simpa using hs.2.2.2⟩
-  have := handleInlineXB_spec hfm hcount _ data 0 x d x' hdat hst h
-  exact ⟨this.str, this.stOK, this.le, this.html⟩
+  obtain ⟨this, q1, q2⟩ := handleInlineXB_spec hfm hcount _ data 0 x d x' hdat hst hq hqs h
+  exact ⟨this.str, this.stOK, this.le, this.html, q1, q2⟩
 
 end MdVerif.NoCtlX
